@@ -1,3 +1,4 @@
+pub mod c09;
 pub mod c13;
 pub mod conn;
 pub mod notif;
@@ -11,6 +12,7 @@ pub fn all() -> Vec<Arc<dyn Prop>> {
         Arc::new(conn::ConnProp { id: "C06" }),
         Arc::new(conn::ConnProp { id: "C07" }),
         Arc::new(conn::ConnProp { id: "C08" }),
+        Arc::new(c09::C09),
         Arc::new(notif::NotifProp { id: "C11" }),
         Arc::new(notif::NotifProp { id: "C12" }),
         Arc::new(c13::C13),
